@@ -20,7 +20,7 @@ ASSUMPTIONS = [
     'counter names are prefix-free (a dotted path never passes through another counter\'s leaf)',
     'the package hash is only required to be identical between two dumps of the same data (its exact preimage is not documented)',
 ]
-BUDGET = {'quick': dict(examples=800, shards=8, seconds=75),
+BUDGET = {'quick': dict(examples=1600, shards=16, seconds=75),
           'thorough': dict(examples=50000, shards=16, seconds=1200)}
 
 DEFAULTS = {'datapackage-rowcount': 'count_of_rows', 'datapackage-bytes': 'bytes', 'datapackage-hash': 'hash',
